@@ -29,6 +29,8 @@ import (
 //	e | e2 | e3 ...            n blocks with a coinbase only
 //	fund                       100000 ELA to the CR assets address
 //	reg:<c> upd:<c> unreg:<c>  register / rename / unregister CR candidate c (c1..c4)
+//	claim:<c>:<n>              council member c claims DPoS node key n (n1..n4)
+//	claimnext:<c>:<n>          elected next member c claims node key n during the claim period
 //	ret:<c>                    candidate c spends the deposit output of his registration
 //	vote:<v>:<pat>             voter v replaces his CR candidate vote output (patterns below)
 //	unvote:<v>                 voter v spends his vote output into a plain one
@@ -210,6 +212,10 @@ func (w *World) build(op string) ([]Tx, error) {
 		return []Tx{UpdateCR(K(arg(1)), nick)}, nil
 	case "unreg":
 		return []Tx{UnregisterCR(K(arg(1)))}, nil
+	case "claim":
+		return []Tx{ClaimNode(K(arg(1)), K("node-"+arg(2)), payload.CurrentCRClaimDPoSNodeVersion)}, nil
+	case "claimnext":
+		return []Tx{ClaimNode(K(arg(1)), K("node-"+arg(2)), payload.NextCRClaimDPoSNodeVersion)}, nil
 	case "ret":
 		// the candidate takes back the deposit of his (last) registration, paying a 0.01 ELA fee
 		k := K(arg(1))
